@@ -40,7 +40,7 @@ def ops_of(tree, acc=None):
 # that tree in doubles differs from the value of every other grouping in the last place (or grossly), so the grouping the
 # library really used is observable where exact arithmetic cannot tell ((a+b)+(c+d) from ((a+b)+c)+d).
 FLOAT_ENVS = [[1e16, 1.0, 1.0, 1.0], [0.1, 0.1, 0.1, 0.4], [0.1, 0.2, 0.3, 0.6], [1e16, -1e16, 1.0, 3.0],
-              [3.0, 1e-17, 1.0, -1e17], [0.7, 0.1, 1e15, 0.3]]
+              [3.0, 1e-17, 1.0, -1e17], [0.7, 0.1, 1e15, 0.3], [3e-16, 1e-16, 0.0, 2.5e-16], [1e-300, -1e-300, 2e-300, 1.0]]
 IEEE_OPS = {'+', '-', '*', '/', '=', '<>', '<', '>', '<=', '>='}
 
 
@@ -219,8 +219,8 @@ def record(chunk):
                     ev.evaluate('Sheet1!Z1')
                 except Exception:
                     pass
-                for a, spec in cells.items():
-                    ev.set_cell_value(a, spec[1])
+                for a, spec in cells.items():      # through the evaluator, or through the model itself
+                    (ev if len(text) % 2 else model).set_cell_value(a, spec[1])
             else:
                 model, ev = xl.build_model(cells, {'Sheet1!Z1': text})
             res = xl.to_abs(ev.evaluate('Sheet1!Z1'))
